@@ -1705,6 +1705,19 @@ def replay(payload):
         print("replay file names a broken theorem/correspondence, not an input:", payload.get("theorem_or_correspondence"))
         return 1
     inp = payload["inputs"]
+    if not isinstance(inp.get("data"), dict) or "kind" not in inp["data"] or inp["data"]["kind"] in ("cp (0-order)", "cp (0-order, masked)", "tt (0-order)"):
+        # 0-order numbers / complex Tucker, TT, TR, TT-matrix cases are regenerated from the seed, not stored: re-run them
+        C.reset_backends()
+
+        class _Rec:
+            def __init__(self): self.findings = []
+            def finding(self, ep, inputs, msg, pred, **k): self.findings.append((ep, msg))
+        rec = _Rec()
+        complex_family_cases(rec, 0, random.Random(payload.get("seed", 0)), "quick")
+        zero_order_probe_rec = [r for r in zero_order_cases(0, random.Random(0)) if "OBad" in r[0]]
+        for ep, msg in rec.findings[:5]:
+            print("replay:", ep, "->", msg)
+        return 1 if rec.findings or zero_order_probe_rec else 0
     if isinstance(inp.get("data"), dict) and inp["data"].get("kind") == "cpg":
         C.reset_backends()
         cx = lambda l: np.array([complex(a, b) for a, b in l], dtype=np.complex128)
